@@ -544,6 +544,10 @@ def run(facts, tier, ctx):
     # overwritten before use, injective cache keys), and the digest/count path of the par mode (shared with C03/C14)
     out += [r for r in c10.run(facts, tier, ctx) if r.rule in ("STATE-ENUM", "RESET", "STALE-READ", "RECYCLE", "PLAIN-STATE", "KEY")]
     out += c03.par_rules(facts)
+    # both modes finish STREAMINFO with the same values - md5_digest() and len_hint.unwrap_or_else(total_samples()) of the
+    # context the blocks went to (C03's MPT+FLOW/digest): a mode that prefers another count source emits other bytes for
+    # a source whose length hint is off (seeded C20-9)
+    out += c03.encoder_rules(facts)
     out += lib_fill.parcontext_siblings(facts)
     # single-thread mode hashes through Context's fills, multi-thread mode through ParContext -> fill_le_bytes: the digest
     # bytes of STREAMINFO agree between the modes only if the two Context fills hash the same bytes (C14's sibling rule)
